@@ -8,8 +8,10 @@ CFG = {
         J("scaled", "c13-encsink", imports="Base Stream Inst Run RunWRows", shard=10),
         J("scaled", "c13-hdr", imports="Base Stream Inst Run RunHdr"),
         J("prod", "c13-hdr", imports="Base Stream Inst Run RunHdr"),
+        # the C write callback accepting part of each buffer (shared with C20)
+        J("prod", "c20", needs_repo_bins=["mla-bindings-c"], imports="Base Stream Inst Run RunC20", shard=30),
     ],
-    "run_modules": ["RunC13", "RunFsComp", "RunWRows", "RunWRowsProofs", "RunHdr"],
+    "run_modules": ["RunC13", "RunFsComp", "RunWRows", "RunWRowsProofs", "RunHdr", "RunC20"],
     "rule": "scaled constants: 48 (quick) / 300 (thorough) generated archives (as C01: 1-4 files, boundary-sized interleaved pieces, the 4 layer "
             "combinations in turn, levels {0,1,5,9,11}), each (a) written through a sink accepting at most sched[i] bytes at the i-th write "
             "(schedules: constant 1, 2, 3, one of {5,7,13,31,97}, 100000, or 2-11 random quotas in 1..39; last entry repeats) and reporting "
@@ -84,3 +86,7 @@ CFG["explanation"] += (" || header stage (props/C13.v C13_header_any_source, C13
                 "read_exact sequence (3, 4, then bincode's single-byte and 8-byte reads, limit charged before each) over ANY stream refining a cursor "
                 "returns what Archive.read_header returns on the bytes and leaves the source at the end of the header; composed with the layer "
                 "theorems (any refining inner stream) and C01: archive_open over any such source of an archive_write output reads back what was written")
+
+# round-5 seed C13-m7
+CFG["rule"] += ("; c20 (shared with C20): archives created through the C interface with write callbacks that accept part of each buffer (1 byte, half, all but one, at most 7 / 4095 bytes): "
+                "readable by the Rust reader with the files and bytes passed in")
